@@ -611,14 +611,16 @@ pub(crate) enum Tag {
 }
 
 impl Tag {
-    /// Get the tag field name, applying inflection if using inflectable variant
-    pub(crate) fn field_name(&self, root_attrs: &RootAttributes) -> String {
+    /// Get the tag field name in the given name style, applying the container prefix and
+    /// inflection if using the inflectable variant (exactly like the name of a field);
+    /// an exact name is never changed.
+    pub(crate) fn field_name(&self, root_attrs: &RootAttributes, style: NameStyle) -> String {
         match self {
             Tag::Inflectable { name, .. } => root_attrs
                 .prefix
                 .as_ref()
-                .map(|p| p.apply(name, root_attrs.rename_all))
-                .unwrap_or_else(|| root_attrs.rename_all.apply(name)),
+                .map(|p| p.apply(name, style))
+                .unwrap_or_else(|| style.apply(name)),
             Tag::Exact { name, .. } => name.clone(),
         }
     }
